@@ -512,7 +512,9 @@ pub fn c10(args: &Args) {
         "E0-hlc",
         "grid: seconds in {0,1,2^31-1,2^31,2^31+1,2^32-2,2^32-1}+random x fractional 0..=249 x counter {0,1,255,256,65534,65535}+random x node {0,1,127,128,254,255}+random: new -> accessors, as_u64/from_u64, Display -> FromStr, rkyv archive -> cast and validated deserialize are identities; cmp of pairs equals tuple comparison (time@4ms, counter, node). from_str on generated strings (valid, each field out of range, wrong separators, signs, hex case, huge numbers, unicode, empty) inside catch_unwind: Ok or Err, never a panic. Non-trivial: every grid point / distinct string counts once.",
     );
-    if let Some(path) = &args.replay {
+    // (witnesses of the grid / ordering part carry no parameters: the grid is deterministic and fast, a
+    // replay of such a witness simply runs the whole monitor again)
+    if let Some(path) = args.replay.as_ref().filter(|p| read_replay(p)["text"].is_string()) {
         let r = read_replay(path);
         let s = r["text"].as_str().unwrap().to_string();
         let mut out = CaseOut::default();
@@ -646,6 +648,6 @@ pub fn c10(args: &Args) {
     });
     let _ = std::panic::take_hook();
     report.evaluations += report.counts.get("strings_parsed_ok").copied().unwrap_or(0) + report.counts.get("strings_rejected").copied().unwrap_or(0);
-    report.samples.push(json!({"grid_point": {"seconds": TIMESTAMP_MAX, "fractional": 249, "counter": 65_535, "node": 255}, "text": HLCTimestamp::new(Duration::from_secs(TIMESTAMP_MAX) + Duration::from_millis(996), 65_535, 255).to_string()}));
+    report.samples.push(json!({"grid_point": {"seconds": TIMESTAMP_MAX, "fractional": 249, "counter": 65_535, "node": 255}, "text": std::panic::catch_unwind(|| HLCTimestamp::new(Duration::from_secs(TIMESTAMP_MAX) + Duration::from_millis(996), 65_535, 255).to_string()).unwrap_or_else(|_| "(constructor panicked)".into())}));
     report.finish(args);
 }
